@@ -451,6 +451,53 @@ pub fn run(rep: &mut Report, thorough: bool) {
                 &mut rep.sink,
             );
             rep.stage(&format!("events-{}", tag), "corpus + truncations + header-field values + selectors, events of every frame parsed and compared with the reference trace", frames.len() as u64, t0);
+            // soak: thousands of connections and frames through ONE responder process (beyond the
+            // 1024 / 4096-entry marks of the connection table and every 8-bit frame counter), the
+            // events of every frame checked
+            if lists || logger == LoggerKind::Console {
+                let t0 = std::time::Instant::now();
+                let nfl = if thorough { 20_000 } else { 4_500 };
+                let fl = crate::props::c07::many_flow_set(&Cfg::base(), nfl, 80, rep);
+                let mut cmds: Vec<Cmd> = Vec::new();
+                for (k, (f, g)) in fl.iter().enumerate() {
+                    cmds.push(Cmd::Frame(f.tcp(1, 0, F_SYN, b"")));
+                    cmds.push(Cmd::Frame(f.tcp(2, g.wrapping_add(1), F_PSH | F_ACK, if k % 3 == 0 { b"GET / HTTP/1.0\r\n\r\n" } else { b"x" })));
+                    if k % 4 == 0 {
+                        cmds.push(Cmd::Frame(flow(k % 8 == 0, 1, 1).icmp_echo(k as u16, 1, b"soak")));
+                    }
+                    if k % 16 == 1 {
+                        cmds.push(Cmd::Frame(f.tcp(3, g.wrapping_add(9), F_PSH | F_ACK, b"y")));
+                        cmds.push(Cmd::Frame(f.tcp(4, g.wrapping_add(1), F_FIN | F_ACK, b"")));
+                    }
+                }
+                let total = cmds.len() as u64;
+                let sstage = format!("event-soak-{}", tag);
+                let opts = RunOpts::new(&sstage).stateful().chunk(1).no_monitor();
+                let cfgs = cfg.clone();
+                engine::run(
+                    &cfg,
+                    1,
+                    &opts,
+                    |_| cmds.clone(),
+                    |it: &Item, sk: &mut Sink| {
+                        for (k, (c, o)) in it.cmds.iter().zip(it.outs.iter()).enumerate() {
+                            if let Cmd::Frame(f) = c {
+                                sk.count("frames", 1);
+                                if o.panicked {
+                                    sk.violation(Violation { prop: "C01".into(), key: format!("panic:{}", engine::panic_site(&o.text)), what: o.text.clone(), cfg: cfgs.clone(), cmds: it.cmds[..=k].to_vec(), idx: k as u64, stage: "event-soak".into() });
+                                    break;
+                                }
+                                if let Some((key, what)) = check_frame(&cfgs, f, o) {
+                                    sk.violation(Violation { prop: "C20".into(), key, what: format!("frame {} of one long-running process: {}", k, what), cfg: cfgs.clone(), cmds: it.cmds[..=k].to_vec(), idx: k as u64, stage: "event-soak".into() });
+                                    break;
+                                }
+                            }
+                        }
+                    },
+                    &mut rep.sink,
+                );
+                rep.stage(&sstage, &format!("{} connections (SYN, first data segment; every 16th also a wrong-ack segment and a FIN|ACK) interleaved with echo requests through one responder process, events of every frame checked", fl.len()), total, t0);
+            }
             // histories: every sequence of length <= L over the TCP alphabet of one flow (SYN, data
             // with right / wrong acknowledgement numbers, partial and complete requests of several
             // protocols, FIN|ACK, RST, ...) and the noise frames; the events of EVERY frame of the
